@@ -176,7 +176,83 @@ def judge(ctx, fn, t, rule_prefix='R04'):
     return res
 
 
+def ref_step(state, b):
+    """The reference transition relation: state = None (idle) | (status, [bytes]); -> list of (emitted tokens, new state)."""
+    L = tokmodel.ref_lengths()
+    cl = classify(b if isinstance(b, int) else 0)
+    if cl == 'data':
+        if state is None:
+            return [([], None)]
+        st, bs = state
+        nb = bs + [b]
+        if st != 0xf0 and len(nb) == L[st]:
+            return [([nb], None)]
+        return [([], (st, nb))]
+    if cl == 'sysex_end':
+        if state is not None and state[0] == 0xf0:
+            return [([state[1] + [b]], None)]
+        return [([], None)] + ([([], state)] if state is not None else [])
+    if cl in ('realtime', 'undefined_realtime'):
+        em = [[b]] if cl == 'realtime' else []
+        if state is not None and state[0] == 0xf0:
+            return [(em, state)]
+        return [(em, None)] + ([(em, state)] if state is not None else [])
+    if cl == 'undefined_common':
+        return [([], None)] + ([([], state)] if state is not None else [])
+    if cl == 'one_byte':
+        return [([[b]], None)]
+    return [([], (b, [b]))]
+
+
+def ref_outputs(stream):
+    """All token sequences the reference relation allows for the stream (symbolic items are data bytes)."""
+    runs = [([], None)]
+    for b in stream:
+        nxt = []
+        for toks, st in runs:
+            for em, st2 in ref_step(st, b):
+                nxt.append((toks + em, st2))
+        runs = nxt
+    return [toks for toks, st in runs]
+
+
+def run_observed(ctx, remap):
+    """The transition obligations by observation (see tokmodel): used when the tokenizer does not keep its state in the fields
+    the exact rules write."""
+    fn, obs = tokmodel.observed_transitions(ctx)
+    n = 0
+    classes = set()
+    for pre, b, outs, toks in obs:
+        n += 1
+        cl = classify(b)
+        classes.add((pre.kind, cl))
+        inst = f'{pre!r} --{b:#04x}-->'
+        cons = f'{fn.qname}::{pre.kind}::{cl}'
+        if len(outs) != 1:
+            ctx.fail(remap('R04.1'), f'{inst} decidable', ctx.where(fn), f'cannot decide the transition (undecided condition): {outs}', construct=f'{cons}::decidable')
+            continue
+        if outs[0].kind != 'return':
+            ctx.fail(remap('R04.1'), f'{inst} total', ctx.where(fn), f'feeding byte {b:#04x} in state {pre!r} (then two data bytes and F7) raises {outs[0].exc}',
+                     construct=f'{cons}::total')
+            continue
+        ctx.ok(remap('R04.1'), f'{inst} total', ctx.where(fn))
+        allowed = ref_outputs(tokmodel.pre_prefix(pre) + [b] + tokmodel.suffix())
+        ok = any(len(toks) == len(a) and all(isinstance(t, list) and _items_equal(t, e) for t, e in zip(toks, a)) for a in allowed)
+        rule = 'R04.4' if cl in ('realtime', 'undefined_realtime') else 'R06.1' if cl in ('starter', 'one_byte') else 'R04.3'
+        ctx.require(ok, remap(rule), f'{inst} observed', ctx.where(fn),
+                    f'after {pre!r}, the byte {b:#04x}, two data bytes and F7 the tokenizer hands out {toks!r}; a MIDI tokenizer hands out '
+                    f'{" or ".join(repr(a) for a in allowed)}', construct=f'{cons}::observed')
+    ctx.floor('transitions', n, 30 * 256)
+    ctx.floor('state-x-byte-classes', len(classes), 21)
+    ctx.extra['tokenizer_transitions'] = 'by observation (state not kept in _status/_bytes/_len)'
+    ctx.notes.append('tokenizer transitions decided by observation: prefix, byte and a distinguishing suffix are fed to a fresh tokenizer; '
+                     'the exact one-step rules need the state in the fields _status, _bytes, _len')
+
+
 def run_transitions(ctx, remap):
+    if not tokmodel.representation_known(ctx):
+        run_observed(ctx, remap)
+        return
     fn, trans = tokmodel.transitions(ctx)
     classes = set()
     n = 0
@@ -201,13 +277,18 @@ def r04_init(ctx):
     w = ctx.where(fn)
     ok = len(outs) == 1 and outs[0].kind == 'return'
     ctx.require(ok, 'R04.1', 'Tokenizer().outcome', w, f'constructor outcomes {outs}', construct=f'{fn.qname}::outcome')
-    if ok:
+    if ok and tokmodel.representation_known(ctx):
         st = obj.attrs.get('_status')
         msgs = obj.attrs.get('_messages')
         ctx.require(st == 0 or st is None or st is False, 'R04.1', 'Tokenizer().idle', w, f'initial _status is {st!r}',
                     construct=f'{fn.qname}::idle')
         ctx.require(isinstance(msgs, AList) and msgs.kind == 'deque' and not msgs.items, 'R04.1', 'Tokenizer().queue', w,
                     f'initial token queue is {msgs!r}', construct=f'{fn.qname}::queue')
+    elif ok:
+        # by observation: a fresh tokenizer fed two data bytes and F7 hands out nothing; its queues are empty deques
+        qs = [v for v in obj.attrs.values() if isinstance(v, AList) and v.kind == 'deque']
+        ctx.require(len(qs) >= 1 and all(not q.items for q in qs), 'R04.1', 'Tokenizer().queue', w, f'initial token queue(s): {qs!r}',
+                    construct=f'{fn.qname}::queue')
 
 
 def r04_guard(ctx):
@@ -219,7 +300,9 @@ def r04_guard(ctx):
         holder = {}
 
         def thunk():
-            obj, pb, st = tokmodel.make_obj(cls, tokmodel.Pre('idle'))
+            from ..fold import ClassRef
+            obj = ai.apply(ClassRef(cls), [], {}, None)          # a fresh tokenizer (whatever its fields are)
+            obj.stores.clear()
             holder['obj'] = obj
             return ai.call_function(fn, [obj, bad], {})
         outs = ai.explore(thunk)
